@@ -48,6 +48,10 @@ for p in props:
                     "decoder are the prelude's / the model's) and proved equal to the model's decodeSaltHash / isValid "
                     "(Props/GenHashStr.lean: argonDecode_is_source, scryptDecode_is_source, *IsValid_is_source). "
                     if "Whawty.Props.GenHashStr" in c["modules"] else "") +
+                   ("The policy condition parser (newZXCVBNPolicy) is TRANSLATED statement by statement from the source on "
+                    "every run (lean/Whawty/Gen/PolicyCond.lean; strings.Fields and the number parser are the model's) and "
+                    "proved to accept exactly what the model's parseCondition accepts, with the same kind and threshold "
+                    "(Props/GenPolicyCond.lean: newZXCVBNPolicy_is_source). " if "Whawty.Props.GenPolicyCond" in c["modules"] else "") +
                    " ".join(c.get("trusted", [])) +
                    (" Decided by the run only (partial): " + "; ".join(c["partial"]) if c.get("partial") else ""),
         technique="Lean 4 theorems about a hand-written executable model + differential correspondence (model vs "
@@ -61,7 +65,9 @@ for p in props:
                   (" + the argon2id constructor translated from the source on every run and proved equal to the model's"
                    if "Whawty.Props.GenArgon" in c["modules"] else "") +
                   (" + the salt / digest decoding and IsValid of both algorithms translated from the source on every run and proved equal to the model's"
-                   if "Whawty.Props.GenHashStr" in c["modules"] else ""),
+                   if "Whawty.Props.GenHashStr" in c["modules"] else "") +
+                  (" + the policy condition parser translated from the source on every run and proved equal to the model's"
+                   if "Whawty.Props.GenPolicyCond" in c["modules"] else ""),
     ))
 na = [dict(property_id=p["id"], reason=NOT_APPLICABLE.get(p["id"], "check not built yet in this commit (work in progress; see DESIGN.md section 10)"))
       for p in props if p["id"] not in PROPS]
